@@ -5,18 +5,19 @@
 (* finish / abandon / reset, clock advances), then every documented key is *)
 (* rendered and the public tick-string functions are queried.              *)
 EXTENDS Placeholders, Json
-CONSTANTS D, NT, Lens, Poss
+CONSTANTS D, NT, Lens, Poss,
+          Hid      \* subset of BOOLEAN: TRUE = the bar is created with a hidden target and given the terminal (set_draw_target) only before the renders
 VARIABLES hist, n, done
 vars == <<hist, n, done>>
 
 U(k) == IF k = "MAX" THEN MaxU64 ELSE IF k = "0" THEN Zero ELSE IF k = "1" THEN FromSmall(1) ELSE IF k = "2" THEN FromSmall(2)
-        ELSE IF k = "3" THEN FromSmall(3) ELSE IF k = "5" THEN FromSmall(5) ELSE IF k = "e6" THEN FromSmall(1000000) ELSE Zero
+        ELSE IF k = "3" THEN FromSmall(3) ELSE IF k = "5" THEN FromSmall(5) ELSE IF k = "8" THEN FromSmall(8) ELSE IF k = "200" THEN FromSmall(200) ELSE IF k = "e6" THEN FromSmall(1000000) ELSE Zero
 Ms(ms) == MulSmall(MulSmall(FromSmall(ms), 1000), 1000) \o <<0, 0>>
 Ns5(x) == <<Limb(x, 1), Limb(x, 2), Limb(x, 3), Limb(x, 4), Limb(x, 5)>>
 
 TS == [j \in 1..NT |-> IF j = NT THEN <<90, 90>> ELSE <<96 + j, 48 + j>>]        \* "a1", "b2", ..., final "ZZ"
 MsgA == <<104, 233, 1000>>                                                         \* "h", e-acute, one CJK glyph
-News == { [op |-> "new", nolen |-> l = "none", len |-> U(l), pos0 |-> U(p), m0 |-> <<109, 48>>, p0 |-> <<>>, ts |-> TS] : l \in Lens, p \in Poss }
+News == { [op |-> "new", nolen |-> l = "none", len |-> U(l), pos0 |-> U(p), m0 |-> <<109, 48>>, p0 |-> <<>>, ts |-> TS, hid0 |-> hd] : l \in Lens, p \in Poss, hd \in Hid }
 
 Ops == { [op |-> "tick"] } \cup { [op |-> "ticks", k |-> k] : k \in {NT - 1, NT} }
        \cup { [op |-> "inc", n |-> U(a)] : a \in {"1", "MAX"} }
@@ -37,7 +38,7 @@ Step == /\ n < D /\ ~done
         /\ \E o \in Ops : hist' = Append(hist, o)
         /\ n' = n + 1 /\ UNCHANGED done
 Emit == /\ n = D /\ ~done
-        /\ PrintT(<<"REPLAY", ToJson([ops |-> hist \o Renders \o TickQs])>>)
+        /\ PrintT(<<"REPLAY", ToJson([ops |-> hist \o (IF hist[1].hid0 THEN << [op |-> "show"] >> ELSE <<>>) \o Renders \o TickQs])>>)
         /\ done' = TRUE /\ UNCHANGED <<hist, n>>
 Next == Step \/ Emit
 Spec == Init /\ [][Next]_vars
